@@ -115,6 +115,20 @@ int main()
 			if (kind == "o2") runTbl<SlowTraits2, 3>(n, kh); else if (kind == "o8") runTbl<FastTraits8, 7>(n, kh);
 			else if (kind == "o2f") runTbl<SlowTraits2Full, 3>(n, kh); else runTbl<FastTraits8Full, 7>(n, kh);
 		}
+		else if (cmd == "sweep")
+		{	// property predicate on the real encoders for every probe in [lo, hi): a fresh bucket and an accumulating bucket
+			std::string kind; ull lo, hi; is >> kind >> lo >> hi; ull bad = 0; size_t L = 40;
+			if (kind == "o2") { Raw<O2<3>> acc; size_t mx = 0;
+				for (ull q = lo; q < hi && !bad; ++q) { Raw<O2<3>> r; r.b->UpdateMaxProbe(size_t(q)); if (r.b->GetMaxProbe(0) < q) bad = q;
+					size_t pr = size_t((q * 2654435761ull) % (hi ? hi : 1)); acc.b->UpdateMaxProbe(pr); if (pr > mx) mx = pr; if (acc.b->GetMaxProbe(0) < mx) bad = q; } }
+			else if (kind == "n1") { Raw<N1<3>> acc; size_t mx = 0;
+				for (ull q = lo; q < hi && !bad; ++q) { Raw<N1<3>> r; r.b->UpdateMaxProbe(size_t(q)); if (r.b->GetMaxProbe(L) < q) bad = q;
+					size_t pr = size_t((q * 2654435761ull) % (hi ? hi : 1)); acc.b->UpdateMaxProbe(pr); if (pr > mx) mx = pr; if (acc.b->GetMaxProbe(L) < mx) bad = q; } }
+			else { Raw<O8> acc; size_t mx = 0;
+				for (ull q = lo; q < hi && !bad; ++q) { Raw<O8> r; r.b->UpdateMaxProbe(size_t(q)); if (r.b->GetMaxProbe(L) < q) bad = q;
+					size_t pr = size_t((q * 2654435761ull) % (hi ? hi : 1)); acc.b->UpdateMaxProbe(pr); if (pr > mx) mx = pr; if (acc.b->GetMaxProbe(L) < mx) bad = q; } }
+			if (bad) printf("BAD %llu\n", bad); else puts("ok");
+		}
 		else if (cmd == "cov")
 		{	// number of distinct buckets visited by the real probe sequence within 2^n probes
 			std::string kind; ull n, start; is >> kind >> n >> start;
